@@ -437,6 +437,9 @@ def snakecase_to_camelcase(value: str) -> str:
 
     # Regex matches everything.
     captured = cast(Match[str], EXTRACT_UNDERSCORES_RE.match(value))
+    if not value.strip("_"):
+        return value
+
     value = value.strip("_")
     leading, trailing = captured.groups()
 
